@@ -282,7 +282,7 @@ pub fn dispatch(kind: &str, v: &Value) -> Option<Outcome> {
 pub fn campaigns(ctx: &Ctx) -> Stats {
     let mut st = Stats::default();
     let t = ctx.tier;
-    let (len, total) = t.pick((10usize, 60000u64), (30, 800000));
+    let (len, total) = t.pick((10usize, 240000u64), (30, 800000));
     for (name, exact) in [("exact-programs", true), ("mixed-programs", false)] {
         let cfg = base_cfg(exact, t);
         let strat = move || (recipe_strategy(len), prop::collection::vec(any::<u8>(), 1..64)).boxed();
